@@ -132,6 +132,16 @@ func runeSweep(prop string, args []string) int {
 	return 0
 }
 
+// chainObj logs itself and, below it, a chain of d more nodes.
+type chainObj struct{ d int }
+
+func (c *chainObj) MarshalZerologObject(e *zerolog.Event) {
+	e.Int("d", c.d)
+	if c.d > 0 {
+		e.Object("next", &chainObj{c.d - 1})
+	}
+}
+
 func init() {
 	commands["c02-lengths"] = func(a []string) int { return lengthSweep("C02", a) }
 	commands["c08-lengths"] = func(a []string) int { return lengthSweep("C08", a) }
@@ -247,6 +257,51 @@ func lengthSweep(prop string, args []string) int {
 					bad("length:slice", fmt.Sprintf("%s of %d elements: element %d decodes to %v", name, wantLen, j, a[j]))
 					break
 				}
+			}
+		}
+	}
+	// nesting depth 0..300: dictionaries in dictionaries, and a chain of object marshalers inside an array in the context
+	if f.Shard == 0 {
+		for depth := 0; depth <= 300; depth++ {
+			inner := zerolog.Dict().Int("leaf", depth)
+			for i := 0; i < depth; i++ {
+				inner = zerolog.Dict().Dict("n", inner)
+			}
+			cl := l.With().Array("chain", zerolog.Arr().Object(&chainObj{depth})).Logger()
+			cl.Log().Dict("deep", inner).Str("after", "x").Send()
+			cnt++
+			out.Count("nesting_depths_logged", 1)
+			if prop == "C09" {
+				c09members(out, w.b, fmt.Sprintf("nesting depth %d", depth))
+				continue
+			}
+			if prop == "C08" {
+				w.b = cbor.DecodeIfBinaryToBytes(w.b)
+			}
+			var m map[string]interface{}
+			if err := json.Unmarshal(w.b, &m); err != nil {
+				out.Violate("depth:invalid", fmt.Sprintf("dictionaries nested %d deep: encoding/json rejects the event: %v: %q", depth, err, clipb(w.b)), map[string]interface{}{"check": "length-sweep", "depth": depth})
+				continue
+			}
+			cur, okd := m["deep"].(map[string]interface{})
+			for i := 0; i < depth && okd; i++ {
+				cur, okd = cur["n"].(map[string]interface{})
+			}
+			if !okd || cur["leaf"] != float64(depth) || m["after"] != "x" {
+				out.Violate("depth:content", fmt.Sprintf("dictionaries nested %d deep: the innermost member or the member after the nest is not what was logged", depth), map[string]interface{}{"check": "length-sweep", "depth": depth, "bytes": fmt.Sprintf("%q", clipb(w.b))})
+			}
+			ch, okc := m["chain"].([]interface{})
+			var node map[string]interface{}
+			if okc && len(ch) == 1 {
+				node, okc = ch[0].(map[string]interface{})
+			} else {
+				okc = false
+			}
+			for i := 0; i < depth && okc; i++ {
+				node, okc = node["next"].(map[string]interface{})
+			}
+			if !okc || node["d"] != float64(0) {
+				out.Violate("depth:content", fmt.Sprintf("a chain of %d object marshalers in a context array: the last node is not what was logged", depth), map[string]interface{}{"check": "length-sweep", "depth": depth, "bytes": fmt.Sprintf("%q", clipb(w.b))})
 			}
 		}
 	}
